@@ -39,7 +39,9 @@ Definition merge_at (arr : list Sk) (i : nat) : list Sk :=
   end.
 
 (* l.509-520: for i in range(n_to_merge // 2); the pairs are disjoint, the joins of l.517-520
-   wait for all of them *)
+   wait for all of them.  Not modelled: the exit-code test of l.519 (a merger that dies with a
+   negative code raises RuntimeError; one that raises is not noticed): no property covers faults
+   of the merger processes (DESIGN.md section 5, observations) *)
 Definition merge_phase (arr : list Sk) (n_to_merge : nat) : list Sk :=
   fold_left merge_at (seq 0 (n_to_merge / 2)) arr.
 
